@@ -416,7 +416,9 @@ func (r *e1run) checkC04(si, k int) {
 	if ll && (r.props == nil || r.props["C04"]) {
 		// the same history seen through Playlist Delta Updates: a media sequence number denotes the same segment there
 		for _, skip := range []string{"YES", "v2"} {
-			rr := r.safeGet(mediaPlaylistPath(s.id) + "?_HLS_skip=" + skip)
+			// (with the user's own query string, if the scenario has one: it comes back on every URI, spelled the same way
+			// in every view)
+			rr := r.get(mediaPlaylistPath(s.id) + "?_HLS_skip=" + skip)
 			if rr.Status != 200 {
 				continue
 			}
@@ -434,7 +436,7 @@ func (r *e1run) checkC04(si, k int) {
 			for i, seg := range dp.Segments {
 				msn := dp.MediaSequence + skipped + i
 				j := msn - pl.MediaSequence
-				if j < 0 || j >= len(pl.Segments) || canon(stripQuery(pl.Segments[j].URI)) != canon(stripQuery(seg.URI)) || pl.Segments[j].Gap != seg.Gap || pl.Segments[j].DurationText != seg.DurationText {
+				if j < 0 || j >= len(pl.Segments) || canon(pl.Segments[j].URI) != canon(seg.URI) || pl.Segments[j].Gap != seg.Gap || pl.Segments[j].DurationText != seg.DurationText {
 					r.add("C04", "delta-msn-denotes-other-segment", "stream %s: in a delta update (_HLS_skip=%s, MEDIA-SEQUENCE %d, SKIPPED-SEGMENTS %d) media sequence number %d denotes %s, in the full playlist of the same instant it does not (write %d)", s.id, skip, dp.MediaSequence, skipped, msn, canon(seg.URI), w)
 					break
 				}
